@@ -283,6 +283,14 @@ def cli_output(F, rep):
     for main in bodies:
         tb = Terms(F, main, inline_depth=0)
         direct = [(i, t) for i, t in main.calls() if t["callee"] in OUTPUT_CALLEES]
+        # an output function handed to a combinator as a fn item (`path.map(File::create)`) is called there
+        for i, t in main.calls():
+            if t["callee"] in OUTPUT_CALLEES:
+                continue
+            for a in t["args"]:
+                x = tb.operand(a)
+                if isinstance(x, tuple) and x and x[0] == "fn" and isinstance(x[1], str) and x[1].split("::<")[0] in OUTPUT_CALLEES:
+                    direct.append((i, dict(t, callee=x[1].split("::<")[0])))
         outs = direct + [(i, t) for i, t in main.calls() if t["callee"] in helpers and t["callee"] != main.id]
         total += len(direct)
         if not outs:
@@ -307,7 +315,8 @@ def cli_output(F, rep):
                 own = False
                 if et is not None:
                     term = tb.operand(et["args"][0])
-                    own = any(isinstance(x, tuple) and x and x[0] == "call" and x[1] == ot["callee"] for x in subterms(term))
+                    own = any(isinstance(x, tuple) and x and ((x[0] == "call" and x[1] == ot["callee"]) or
+                                                              (x[0] == "fn" and isinstance(x[1], str) and x[1].split("::<")[0] == ot["callee"])) for x in subterms(term))
                 if not own:
                     bad = (ei, et)
                     break
